@@ -3,19 +3,31 @@ from propcfg.common import COMMON_ASSUME
 CFG = {
     "bin": "c18",
     "technique": "Lean 4 proof (fold invariants for max_by_key / partial_max_by_key over any lawful order; hex and split_once lemmas) "
-                 "+ differential correspondence (exhaustive small inventories x all queries; enumerated checksum strings)",
+                 "+ differential correspondence (exhaustive small inventories x all queries; enumerated checksum strings, each through every entry path: "
+                 "FromStr, Deserialize on its own, inside an inventory document in every TOML string notation)",
     "level_text": "Theorems (all inputs, no bound; generic in the version type, its comparison and the metadata type): resolve_maximal (every "
                   "Ord comparison with irreflexive, transitive <, and == compatible with <), partial_resolve_maximal (every PartialOrd comparison "
                   "with irreflexive, transitive <, duality, == compatible with <; incomparable pairs unconstrained), none_iff_nothing_matches, "
-                  "hex_roundtrip, checksum_accepted_iff_grammar (+ checksum_value, spec_oracle_is_grammar), checksum_roundtrip, "
+                  "hex_roundtrip, checksum_accepted_iff_grammar (+ checksum_value, spec_oracle_is_grammar), record_checksum_is_from_str + "
+                  "record_accepted_iff_checksum_grammar + inventory_accepts_only_grammar_checksums (acceptance does not depend on the entry "
+                  "path: the checksum string of an artifact record is judged exactly like the same string given to from_str - model: "
+                  "Deserialize = from_str of the decoded string), checksum_roundtrip, "
                   "inventory_roundtrip_partial (serde-record level). Tied to the code by a differential run of the real "
-                  "Inventory::resolve/partial_resolve/to_string/parse and Checksum::from_str/Serialize.",
+                  "Inventory::resolve/partial_resolve/to_string/parse and Checksum::from_str/Serialize/Deserialize, every checksum candidate "
+                  "through 9-11 entry paths with the spec oracle applied to each path's outcome.",
     "level_note": "The spec oracle judges the implementation's answer by maximality among the matching artifacts, not by equality with the model's "
                   "tie-break (last maximum). PARTIAL for the TOML round trip: proved at the level of the serde record of an artifact "
                   "(os/arch names, url, `name:hex` checksum string, user codecs for version and metadata); the TOML text layer (crate toml) is "
                   "not modelled and is exercised by the correspondence only (urls/checksum names with quotes, newlines, non-ASCII; family R: version "
                   "and metadata types of every TOML shape - plain values, arrays, tables, optional tables, arrays / maps of tables - rendered with "
                   "Display and parsed with FromStr, equality observed by the harness and judged by the driver). "
+                  "Entry paths: the theorems say the record-level decoder hands the record's checksum string unchanged to from_str; that the real "
+                  "impl Deserialize does so (no trimming / normalising on the way), and that each TOML notation decodes to the candidate, is "
+                  "checked by the correspondence only (family KP: the harness builds each document with its own escaping and confirms with the toml "
+                  "crate's generic Value that the decoded string is the candidate; raw CR LF inside multi-line strings is not used because the toml "
+                  "crate reads it as LF - a CR is always written escaped). OS / architecture names (family N) have no clause in the property: judged "
+                  "directly (rendered names read back on every path; all paths agree); FromStr's aliases osx / x86_64 / aarch64 are accepted by FromStr "
+                  "only and rejected by Deserialize on the unchanged library - these three strings are generated only with VERIF_C18_ALIASES=1. "
                   "Trusted: Lean kernel; Spec/Inventory.lean (my reading of the property); harness and driver glue. Modelled, not verified: "
                   "Iterator::max_by_key returns the last maximum, hex::decode/encode, str::split_once, serde derive for Os/Arch.",
     "shrink": [(1, ","), (2, ",")],
@@ -53,13 +65,28 @@ CFG = {
             "Vec<struct> = array of tables, map of structs, nested struct holding a table, an optional table, an array and a map of tables) x "
             "inventories of 0, 1, 2, 3, 17, 33 (thorough 65, 257) artifacts, then 4 / 40 more draws at 1, 2, 3, 5 artifacts; values derived "
             "from 46 texts (empty, multi-line, CRLF, quotes, backslash, non-ASCII, BOM, NUL, DEL, blanks, TOML look-alikes, keys needing quotes, "
-            "255..600 characters), 1/4 of the inventories with one text throughout. non-trivial: T/P = two artifacts share OS and arch (some query has several candidates); "
-            "F, R = at least one artifact; K = the string holds a colon; distinct = distinct input line",
+            "255..600 characters), 1/4 of the inventories with one text throughout. ENTRY PATHS (kind KP): every checksum string of every K family above, in both tiers, is not only given to "
+            "str::parse::<Checksum<D>>() (fs) but also to Deserialize on its own - serde's &str deserializer (ds), serde_json::from_str of the JSON "
+            "string (dj), toml::from_str of a one-field record (dt), a toml::Value (dv) - and placed as the checksum of a one-artifact inventory read "
+            "with Inventory::from_str as TOML basic string (ib), multi-line basic string with raw line feeds (imb), literal string (il) and multi-line "
+            "literal string (iml) when the text allows these two (no apostrophe / control character; the case's last field lists them), the inventory "
+            "from a JSON value (ij) and one Artifact with toml::from_str (at); the spec oracle (grammar, name, digest value) judges each path's outcome, "
+            "the verdict names the first deviating path. N — 7 names (linux darwin amd64 arm64 + FromStr aliases osx x86_64 aarch64) x 22 decorations "
+            "x 5 places (after, before, both ends, twice after, in the middle), 42 near misses (case variants, prefixes, look-alike characters, other "
+            "OS / arch names), each as OS and as architecture through the same paths (the three bare aliases only with VERIF_C18_ALIASES=1). "
+            "non-trivial: T/P = two artifacts share OS and arch (some query has several candidates); "
+            "F, R = at least one artifact; K/KP = the string holds a colon; N = non-empty string; distinct = distinct input line",
     "exhaustive": True,
     "search_rounds": 1,
     "search_tier": "quick",
     "trusted_base": ["Spec/Inventory.lean is my reading of the property (Acceptable; ChecksumGrammar)",
-                     "the TOML text layer of Inventory's Display/FromStr is sampled, not proved (inventory_roundtrip_partial)"],
+                     "the TOML text layer of Inventory's Display/FromStr is sampled, not proved (inventory_roundtrip_partial)",
+                     "entry paths of a checksum string: that impl Deserialize for Checksum = from_str of the decoded string (model: decodeArtifact) is "
+                     "tied to the code by the KP cases only; the harness's TOML escaping helpers (toml_basic, toml_ml_basic, toml_literal, "
+                     "toml_ml_literal in harness/src/bin/c18.rs) and the toml crate's generic Value used to confirm that each document holds the "
+                     "candidate string; serde's StrDeserializer, serde_json and toml as carriers",
+                     "OS / architecture names: no spec clause; FromStr mirrored in Driver/C18.lean (osFromStr, archFromStr), path agreement judged by "
+                     "the driver; bare FromStr aliases excluded by default (VERIF_C18_ALIASES=1 turns them on)"],
     "assumptions": COMMON_ASSUME + [
         "V's Ord / PartialOrd implementation satisfies the order laws stated as hypotheses (TotalLaws / PartialLaws in Spec/Inventory.lean)",
         "Iterator::filter/max_by_key/fold (std), hex::decode/encode, str::split_once behave as modelled",
